@@ -202,6 +202,10 @@ package fiber
 // view lookup) is the path its routes are registered under. register roots the pattern it is given (rooted(pathRaw): a
 // leading slash is added when there is none), so the sub-app - and every app listed by the sub-app, below it - has to be
 // listed under rooted(pathRaw), not under the prefix as written (`app.Use("api", sub)` serves /api/...).
+// (two ground lemmas first, so that the quantified clause below does not depend on the solver finding these string
+//  equalities by itself: the prefix handed to register is the one the loop joined the keys to, and it is rooted already)
+//@   atcall (*App).register: registered-prefix-is-the-prefix-the-keys-were-joined-to: pathRaw == rooted(last(@utils.TrimRight))
+//@   atcall (*App).register: registered-prefix-is-rooted-already: rooted(pathRaw) == pathRaw
 //@   atcall (*App).register: sub-app-and-its-subtree-listed-under-the-path-the-routes-are-registered-under: subtreeListed(app, rooted(pathRaw))
 //@   atcall (*App).register: the-sub-app-listed-under-the-path-its-routes-are-registered-under: indom(app.mountFields.appList, rooted(pathRaw)) && app.mountFields.appList[rooted(pathRaw)] == old(subApp)
 //@   atcall (*App).register: nothing-dropped: forallS(k, old(indom(app.mountFields.appList, k)) ==> indom(app.mountFields.appList, k))
